@@ -126,6 +126,18 @@ func main() {
 		return
 	}
 	runtime.GOMAXPROCS(1)
+	// the sandbox has no memory limit: a search that explodes must end this process, not the machine
+	go func() {
+		var ms runtime.MemStats
+		for {
+			time.Sleep(2 * time.Second)
+			runtime.ReadMemStats(&ms)
+			if ms.HeapAlloc > 20<<30 {
+				fmt.Fprintf(os.Stderr, "verif worker: heap grew to %d MiB (scenario %q): giving up\n", ms.HeapAlloc>>20, curScenario)
+				os.Exit(3)
+			}
+		}
+	}()
 	if !*verbose {
 		log.SetOutput(io.Discard)
 	}
